@@ -60,3 +60,19 @@ Proof. exists [LSend O 1%Z; LSend O 2%Z; LTx; LTx]. repeat split. Qed.
 Example link_example :
   ldrain (lrun [LSend 0%nat 10%Z; LSend 1%nat 20%Z; LSend 2%nat 30%Z; LTx] l_init) = [Some 10%Z; Some 20%Z; Some 30%Z].
 Proof. reflexivity. Qed.
+
+(* ------------------------------------------------------------------ packet type chosen at send time (round 7) *)
+Lemma send_now_understood : forall h : list (Z * Z), fw_receive h (send_now h) = map (fun vy => Some (snd vy)) h.
+Proof.
+  induction h as [|[ver yaw] h IH]; [reflexivity|].
+  unfold fw_receive, send_now in *. cbn [map combine fst snd]. f_equal; [|exact IH].
+  unfold fw_knows, fw_yaw, hover_type, hover_yaw_field.
+  destruct (ver <=? 8)%Z eqn:E; cbn.
+  - f_equal. lia.
+  - assert (H : (9 <=? ver)%Z = true) by lia. rewrite H. reflexivity.
+Qed.
+
+Lemma send_cached_refuted :
+  exists h : list (Z * Z), fw_receive h (send_cached h) <> map (fun vy => Some (snd vy)) h
+                           /\ fw_receive h (send_cached h) = [Some 72%Z; None].
+Proof. exists [(10, 72); (8, 72)]%Z. split; [discriminate|reflexivity]. Qed.
